@@ -74,5 +74,9 @@ REGISTRY = {
                     "Two packages rich in multi-element unordered collections (re-export ties at equal depth, several type variables, inferred return types, duplicate short names, many imports, unions, markers, "
                     "foreign classes) are run under every environment and C08_Trace judges equality of the complete output digest against the baseline run.",
             "ref": "DESIGN.md section 7 C08", "note": BASE_NOTE + " Seeds and enumeration orders are sampled, not exhausted.", "technique": TECH},
+    "C18": {"text": "spec/Locality.tla models a module's stub as a function of its dependencies (itself, referenced modules, re-exporting inits) and TLC checks Local/Permute for 4 base packages x 6 "
+                    "perturbations (add, add-with-same-names, rename, change, remove an unrelated module; permute the module's own declarations); each pair is realised as two real runs and C18_Trace judges "
+                    "byte identity of the observed module's stub, or equality of the bag of declaration blocks and of the header for permutations.",
+            "ref": "DESIGN.md section 7 C18", "note": BASE_NOTE, "technique": TECH},
 }
 NOT_APPLICABLE = {}
